@@ -207,7 +207,9 @@ func (e *Env) Probe(st *Step) {
 
 	if probeEnabled("C20") && kind != "env" {
 		e.probeQueries(st)
-		st.Queries = e.queryLines(st)
+		st.Queries = e.queryLines(st, true)
+	} else if probeEnabled("C11") && kind != "env" {
+		st.Queries = e.queryLines(st, false) // the bank supply queries only
 	}
 }
 
